@@ -1,7 +1,9 @@
 -- root of the library: the property files of every registered check (each imports its models/lemmas)
 import PnVerif.Props.C01
+import PnVerif.Props.C05
 import PnVerif.Props.C06
 import PnVerif.Props.C07
+import PnVerif.Props.C08
 import PnVerif.Props.C09
 import PnVerif.Props.C10
 import PnVerif.Props.C12
